@@ -78,7 +78,7 @@ def cases(draw):
         else:
             fam = "&" + kind
             reg = draw(st.sampled_from(sorted(FAMILIES[fam])))
-            tag = draw(st.sampled_from(["", f"-{q}", f"-{'abc'[q]}"]))
+            tag = draw(st.sampled_from(["", f"-{q}", f"-{'abc'[q]}", f".acc{q}", f".x.y{q}"]))
             names.append({"kind": "regfam", "fam": fam, "name": fam + tag, "bind": reg})
     # distinct capture keys
     assume(len({n["name"] for n in names}) == len(names))
@@ -92,7 +92,7 @@ def cases(draw):
         b = draw(instruction_body())
         assume(" " not in "".join(b[1]))
         d = describe_inst(draw, ("0", b[0], b[2]))
-        which = draw(st.sampled_from(["item", "$or", "$not", "times"]))
+        which = draw(st.sampled_from(["item", "$or", "$not", "times", "$not-times", "$or-times", "$and-times", "$and_any_order"]))
         if which == "item":
             return d, [list(b)]
         if which == "$or":
@@ -101,7 +101,19 @@ def cases(draw):
         if which == "$not":
             return {"$not": [draw(st.sampled_from(["zz", {"qq": ["zz"]}, {"$or": ["zz", "qq"]}]))]}, [list(b)]
         r = draw(st.integers(1, 3))
-        node = {d: {"times": r}} if isinstance(d, str) else dict(d, times=r)
+        tv = r if draw(st.booleans()) else {"min": draw(st.integers(0, r)), "max": r}
+        if which == "$not-times":
+            return {"$not": ["zz"], "times": tv}, [list(b) for _ in range(r)]
+        if which == "$or-times":
+            return {"$or": [d, "zz"], "times": tv}, [list(b) for _ in range(r)]
+        if which == "$and-times":
+            return {"$and": [d], "times": tv}, [list(b) for _ in range(r)]
+        if which == "$and_any_order":
+            b2 = draw(instruction_body())
+            assume(" " not in "".join(b2[1]))
+            d2 = describe_inst(draw, ("0", b2[0], b2[2]))
+            return {"$and_any_order": [d2, d]}, [list(b), list(b2)]
+        node = {d: {"times": tv}} if isinstance(d, str) else dict(d, times=tv)
         return node, [list(b) for _ in range(r)]
 
     def reg_operand(n, width):
